@@ -19,7 +19,8 @@ def main() -> int:
     not_applicable = []
     for pid in ALL:
         path = os.path.join(HERE, "props", pid.lower() + ".py")
-        if not os.path.exists(path):
+        registered = open(os.path.join(HERE, "registered.txt")).read().split()
+        if not os.path.exists(path) or pid not in registered:
             not_applicable.append({"property_id": pid, "reason": NOT_YET})
             continue
         src = open(path, encoding="utf-8").read()
